@@ -575,23 +575,31 @@ def search_small(ctx):
                     if bad:
                         ctx.violation("failing-input", "reported layout aliases: " + bad, dict(case_detail(mod, evm), layout=res[1]))
                         return True
-    # overrides: two variables of sizes (a, b) placed anywhere in a 6-slot window
-    for a, b in ((1, 1), (2, 1), (2, 3), (3, 3)):
+    return override_window(ctx)[1]
+
+
+def override_window(ctx):
+    """Exhaustive: two variables of sizes (a, b) (both declaration orders) placed anywhere in a 6-slot window, judged by
+    the property's own oracle on the real compiler (no model involved).  -> (cases, found)"""
+    n = 0
+    tp = {1: "uint256", 2: "uint256[2]", 3: "uint256[3]"}
+    for a, b in ((1, 1), (2, 1), (1, 2), (2, 3), (3, 2), (3, 3), (1, 3), (3, 1)):
         items = [Var("p", "storage", T("word", name="uint256") if a == 1 else T("sarr", t=T("word", name="uint256"), n=a)),
                  Var("q", "storage", T("word", name="uint256") if b == 1 else T("sarr", t=T("word", name="uint256"), n=b))]
         mod = Module("top", items, False)
-        tp = {1: "uint256", 2: "uint256[2]", 3: "uint256[3]"}
         for sa in range(6):
             for sb in range(6):
                 ov = {"p": {"type": tp[a], "slot": sa, "n_slots": a}, "q": {"type": tp[b], "slot": sb, "n_slots": b}}
                 valid = sa + a <= sb or sb + b <= sa
                 res = try_layout(mod.source(True), {}, "cancun", override=ov)
                 acc = res[0] == "ok"
+                n += 1
                 if acc != valid or (acc and res[1].get("storage_layout") != ov):
                     ctx.violation("failing-input", "override " + ("rejected although valid" if valid else "accepted although overlapping / not honoured"),
                                   dict(case_detail(mod, "cancun", ov), outcome=res[1:]))
-                    return True
-    return False
+                    return n, True
+    ctx.corr["override_window_exhaustive"] = n
+    return n, False
 
 
 # ------------------------------------------------------------------ main
@@ -618,6 +626,9 @@ def run(ctx):
     total += n1
     found |= f1
     huge_ok = part_hang_probe(ctx)
+    n0, f0 = override_window(ctx)
+    total += n0
+    found |= f0
     n2, f2 = part_override(ctx, model_ok, 40 if quick else 250, huge_ok)
     total += n2
     found |= f2
